@@ -38,6 +38,7 @@ type solver struct {
 	asserted                         []*Term
 	isFallback                       bool
 	nRetried                         int
+	alt                              *solver // fall-back process holding the model of the last answer, if it gave it
 }
 
 func newSolver(kind solverKind, timeoutMs int) (*solver, error) {
@@ -111,6 +112,7 @@ func (s *solver) flush() {
 
 // reset clears all assertions and declarations (start of a new path).
 func (s *solver) reset() {
+	s.dropAlt()
 	s.pending.Reset()
 	if s.kind == solverCVC5 {
 		// cvc5 1.0: (reset) works but loses options set on the command line? They persist.
@@ -223,6 +225,7 @@ func (s *solver) readResponse() (string, error) {
 
 // check asks whether the current assertions plus the given literals are satisfiable.
 func (s *solver) check(extra ...*Term) satResult {
+	s.dropAlt()
 	var lits []string
 	for _, t := range extra {
 		if t.isConst() {
@@ -274,7 +277,7 @@ func (s *solver) check(extra ...*Term) satResult {
 		}
 		// inconclusive (time-out): retry the whole query one-shot on the other solvers
 		if !s.isFallback {
-			for _, kind := range []solverKind{solverZ3New, solverCVC5} {
+			for _, kind := range []solverKind{solverCVC5, solverZ3New, solverZ3} {
 				if kind == s.kind {
 					continue
 				}
@@ -300,7 +303,6 @@ func (s *solver) retryElsewhere(kind solverKind, extra []*Term) satResult {
 	if err := o.start(); err != nil {
 		return resUnknown
 	}
-	defer o.close()
 	o.reset()
 	for _, t := range s.asserted {
 		o.assert(t)
@@ -308,7 +310,21 @@ func (s *solver) retryElsewhere(kind solverKind, extra []*Term) satResult {
 	t0 := time.Now()
 	r := o.check(extra...)
 	s.secs += time.Since(t0).Seconds()
+	if r == resSat {
+		// keep the process: it holds the model of this answer (see termValues)
+		s.alt = o
+	} else {
+		o.close()
+	}
 	return r
+}
+
+// dropAlt forgets the fall-back process that answered the previous query.
+func (s *solver) dropAlt() {
+	if s.alt != nil {
+		s.alt.close()
+		s.alt = nil
+	}
 }
 
 // values fetches model values for the given variable terms after a sat answer.
